@@ -5,6 +5,8 @@ import (
 	"strings"
 	"time"
 
+	v1 "k8s.io/api/core/v1"
+
 	"verif/h"
 	"verif/sim"
 )
@@ -118,6 +120,7 @@ type c08Case struct {
 	Min   int   // min_nodes (a binding clamp when K > n - Min)
 	Annot bool  // the first listed node carries the no-delete annotation (it can still be tainted)
 	Dry   bool  // the group runs in dry mode: tainting is recorded in its taint tracker only
+	Busy  bool  // taint_effect NoExecute and the oldest node still runs a pod (it is tainted first all the same)
 }
 
 func c08Build(p c08Case) *h.Scenario {
@@ -125,8 +128,11 @@ func c08Build(p c08Case) *h.Scenario {
 	g.Opts.MinNodes = p.Min
 	g.Opts.FastNodeRemovalRate, g.Opts.SlowNodeRemovalRate = p.K, 0
 	g.Opts.DryMode = p.Dry
+	if p.Busy {
+		g.Opts.TaintEffect = "NoExecute"
+	}
 	return &h.Scenario{
-		Name: fmt.Sprintf("c08.t%v.p%v.k%d.m%d.a%v.d%v", p.Times, p.Perm, p.K, p.Min, p.Annot, p.Dry), CovName: "c08.grid", Groups: []h.GroupSpec{g}, Slots: 1, Quantum: Q,
+		Name: fmt.Sprintf("c08.t%v.p%v.k%d.m%d.a%v.d%v.b%v", p.Times, p.Perm, p.K, p.Min, p.Annot, p.Dry, p.Busy), CovName: "c08.grid", Groups: []h.GroupSpec{g}, Slots: 1, Quantum: Q,
 		FaultOps:         map[string]bool{sim.OpK8sGet: true, sim.OpK8sUpdate: true},
 		MaxEventsPerSlot: 1,
 		Events: func(hh *h.Hist, slot int) []h.Event {
@@ -148,6 +154,16 @@ func c08Build(p c08Case) *h.Scenario {
 					o.ZeroCreated = true
 				}
 				hh.W.AddNode(a, o)
+			}
+			if p.Busy {
+				var oldest *v1.Node
+				for _, n := range hh.W.Nodes {
+					if oldest == nil || n.CreationTimestamp.Time.Before(oldest.CreationTimestamp.Time) {
+						oldest = n
+					}
+				}
+				// small enough to keep the group in the fast band
+				hh.W.AddPod(podOn(g, oldest.Name, 10))
 			}
 		},
 	}
@@ -178,6 +194,27 @@ func c08MultiScan(pattern string) *h.Scenario {
 	g.Opts.MinNodes = 0
 	g.Opts.FastNodeRemovalRate, g.Opts.SlowNodeRemovalRate = 1, 1
 	g.Opts.SoftDeleteGracePeriod, g.Opts.HardDeleteGracePeriod = dur(30), dur(60)
+	if pattern == "recreated" {
+		// a node is deleted and a new machine registers under the same name between two scans: it is
+		// the youngest node from then on
+		return &h.Scenario{Name: "c08.multiscan." + pattern, Groups: []h.GroupSpec{g}, Slots: 5, Quantum: Q, MaxEventsPerSlot: 1, BoundExact: 2,
+			Init: func(hh *h.Hist) {
+				a := InitASGs(hh)[0]
+				for i := 0; i < 4; i++ {
+					hh.W.AddNode(a, sim.NodeOpt{Age: time.Duration(40-2*i) * Q})
+				}
+			},
+			Events: func(hh *h.Hist, slot int) []h.Event {
+				var ev []h.Event
+				for _, n := range groupNodes(hh, g, 4) {
+					if _, tainted := h.HasTaint(n, h.TaintKey); !tainted {
+						ev = append(ev, evReplaceInstance(n.Name, true), evReplaceInstance(n.Name, false))
+					}
+				}
+				return ev
+			},
+		}
+	}
 	if pattern == "down-up-down" {
 		// four nodes; a burst of 2200m on three untainted nodes needs exactly one more node (the tainted
 		// one is untainted, nothing is bought, no cool-down); then the load goes away again
@@ -236,6 +273,7 @@ func c08Scenarios(tier string, shard, shards int) []*h.Scenario {
 	add(func() *h.Scenario { return c08MultiScan("distinct") })
 	add(func() *h.Scenario { return c08MultiScan("ties") })
 	add(func() *h.Scenario { return c08MultiScan("down-up-down") })
+	add(func() *h.Scenario { return c08MultiScan("recreated") })
 	for n := 1; n <= maxN; n++ {
 		total := 1
 		for i := 0; i < n; i++ {
@@ -256,6 +294,9 @@ func c08Scenarios(tier string, shard, shards int) []*h.Scenario {
 						continue
 					}
 					add(func() *h.Scenario { return c08Build(c08Case{Times: times, Perm: pm, K: k, Dry: true}) })
+					if k < n {
+						add(func() *h.Scenario { return c08Build(c08Case{Times: times, Perm: pm, K: k, Busy: true}) })
+					}
 					switch {
 					case n <= 3 || (tier == "thorough" && n == 4):
 						add(func() *h.Scenario { return c08Build(c08Case{Times: times, Perm: pm, K: k, Min: 1}) })
